@@ -11,6 +11,7 @@ import math
 from fractions import Fraction
 from types import SimpleNamespace
 
+import numpy as np
 import pandas as pd
 
 from harness import common as C
@@ -246,6 +247,50 @@ def api(run, driver, n_cases):
             run.traces += 1
 
 
+def api_corners(run):
+    """corners of the gate that run first on every check: no live rows at all (header-only list of lists, empty frame), and a feed
+    dominated by excluded units (more than 20 blocklisted units reporting, default outlier settings) with the modelled units at
+    0 / minimum - 1 / minimum / minimum + 1"""
+    rng = run.rng
+    cm = E.client_mod()
+    cols = ["postal_code", "geographic_unit_fips", "percent_expected_vote", "results_dem", "results_gop", "results_turnout"]
+    for pi, ests, feats, params in (("nonparametric", ["turnout"], [], {}), ("gaussian", ["turnout", "dem"], [], {}),
+                                    ("bootstrap", ["margin"], ["baseline_normalized_margin"], E.boot_params(B=4))):
+        e = exact_election(rng, 12, n_partial=2)
+        for kind, feed in (("header-only list of lists", [cols]), ("empty frame", pd.DataFrame(columns=cols))):
+            case = {"api": True, "corner": "no live rows: " + kind, "pi_method": pi}
+            try:
+                with np.errstate(all="ignore"):
+                    cm.ModelClient().get_estimates(feed, E.ELECTION_ID, e.office, ests, [0.7], e.threshold, e.unit_type,
+                                                   raw_config=e.config(), preprocessed_data=e.pre.copy(), save_output=[], pi_method=pi,
+                                                   aggregates=["postal_code", "unit"], features=feats, fixed_effects={},
+                                                   model_parameters=dict(params))
+                impl = "completed"
+            except Exception as ex:
+                impl = type(ex).__name__
+            run.case(case, True)
+            run.count("corner: no live rows")
+            if impl != "ModelNotEnoughSubunitsException":
+                run.violation("no reporting unit at all did not raise the dedicated error", input=case, impl=impl,
+                              expected="ModelNotEnoughSubunitsException", predicate="gate_iff", signature="C14:gate-empty")
+    for alpha in (0.8, 0.7):
+        need = int(math.ceil(impl_min("nonparametric", alpha)))
+        for m in (0, need - 1, need, need + 1):
+            e = exact_election(rng, 22 + m, n_partial=2)
+            e.unit_blocklist = list(e.pre["geographic_unit_fips"][:22])
+            case = {"api": True, "corner": "22 blocklisted reporting units", "modelled_reporting": m, "alpha": alpha, "minimum": need}
+            res = E.run_client(e, estimands=["turnout"], alphas=[alpha], pi_method="nonparametric", features=[],
+                               params={"fit_margin_outlier_model": True, "fit_turnout_outlier_model": True})
+            impl = res.get("raises", "completed")
+            want = "ModelNotEnoughSubunitsException" if m < need else "completed"
+            run.case(case, True)
+            run.count("corner: excluded units dominate")
+            if impl != want:
+                run.violation("with many excluded units reporting the gate does not count the modelled units only", input=case,
+                              impl={"outcome": impl, "msg": res.get("msg")}, expected=want, predicate="gate_iff", signature="C14:gate-excluded",
+                              election=e.to_json())
+
+
 ALPHAS_Q = [0.5, 0.75, 0.875, 0.7, 0.9, 0.95, 0.99, 0.3, 0.6, 0.8, 0.85]
 
 
@@ -254,11 +299,13 @@ def explore(run, driver, budget):
     if budget == "quick":
         grid(run, driver, 1500, ALPHAS_Q)
         consts(run, driver)
+        api_corners(run)
         api(run, driver, 40)
     elif budget == "thorough":
         al = sorted(set(ALPHAS_Q + [round(0.005 * k, 3) for k in range(1, 200)] + [0.25, 0.125, 0.0625, 0.9375]))
         grid(run, driver, 12000, al)
         consts(run, driver)
+        api_corners(run)
         api(run, driver, 1200)
     else:
         grid(run, driver, 3000, ALPHAS_Q + [0.55, 0.65, 0.45, 0.97])
